@@ -209,6 +209,11 @@ fn main() {
     cov.insert("rule".into(), json!(format!(
         "struct: DH parameters (field sizes {{0,1,2,255,256{}}}^3), EC parameters (6 named groups, 5 explicit-prime shapes, 4 unsupported curve types), ECDH parameters, all 256 EC point lengths, both DigitallySigned forms x every combination of <= {} deviations, and again with 5 other opaque-content patterns (all zero, 00 ff.., 00 80 ff 7f.., all ff, 80 00..); content+signature pairs through parse_content_and_signature with 3 content parsers x both flag values x both signature encodings; complete sweeps of all 65536 named groups, all 256 curve types, all 65536 (hash, signature) algorithm pairs; every string of length <= {} over a 6-letter alphabet on each of the 12 entry points. Oracle: strict walkers (exact values with slice positions, exact consumption). Non-trivial: every case",
         if thorough { ",65535" } else { "" }, d, n)));
+    // the same check against the crate built with all cargo features (std, serialize, unstable)
+    let mut sink = sink;
+    if run.tier == Tier::Thorough {
+        run.all_features_variant(&mut sink);
+    }
     let code = run.finish(&sink, cov, vec!["strict walkers per DESIGN appendix D (all structures self-delimiting, a cut field is a rejection)".into()]);
     std::process::exit(code);
 }
